@@ -218,7 +218,8 @@ Qed.
 Lemma rpc_tcp_not_stun r0 ip port data r' d :
   rpc_repl_tcp r0 ip port data = (r', Some d) -> is_stun_success d = false.
 Proof.
-  unfold rpc_repl_tcp. destruct (r_state _ =? R_END); intros H; inversion H; subst.
+  unfold rpc_repl_tcp. destruct (r_state _ =? R_END); [destruct (r_mtype _ =? 0)|];
+    intros H; inversion H; subst.
   unfold is_stun_success, u16_at, u8_at. cbn [app nth]. apply N.eqb_neq. lia.
 Qed.
 
@@ -297,7 +298,7 @@ Lemma rpc_udp_not_stun ip port data d :
   rpc_repl_udp ip port data = Some d -> stun_change_port data && is_stun_success d = false.
 Proof.
   intros Hok. unfold rpc_repl_udp.
-  destruct (r_state _ =? R_END); intros H; inversion H; subst. clear H.
+  destruct ((r_state _ =? R_END) && _); intros H; inversion H; subst. clear H.
   destruct (stun_change_port data) eqn:Hreq; [|reflexivity]. cbn [andb].
   unfold stun_change_port in Hreq.
   apply andb_true_iff in Hreq. destruct Hreq as [Hreq _].
